@@ -480,22 +480,37 @@ func showAnn(m map[string]string) string {
 	return strings.Join(out, ";")
 }
 
+// descExtra: urls~data~platform ("_" = absent), see ml/c19_main.ml extra_of
 func descExtra(d ocispec.Descriptor) string {
-	x := struct {
-		URLs     []string          `json:"urls,omitempty"`
-		Data     []byte            `json:"data,omitempty"`
-		Platform *ocispec.Platform `json:"platform,omitempty"`
-	}{d.URLs, d.Data, d.Platform}
-	js, _ := json.Marshal(x)
-	if string(js) == "{}" {
-		return ""
+	u, dt, p := "_", "_", "_"
+	if len(d.URLs) > 0 {
+		var hs []string
+		for _, x := range d.URLs {
+			hs = append(hs, common.Hex(x))
+		}
+		u = strings.Join(hs, ".")
 	}
-	return string(js)
+	if len(d.Data) > 0 {
+		dt = common.Hex(string(d.Data))
+	}
+	if d.Platform != nil {
+		f := "_"
+		if len(d.Platform.OSFeatures) > 0 {
+			var hs []string
+			for _, x := range d.Platform.OSFeatures {
+				hs = append(hs, common.Hex(x))
+			}
+			f = strings.Join(hs, "+")
+		}
+		p = strings.Join([]string{common.Hex(d.Platform.Architecture), common.Hex(d.Platform.OS), common.Hex(d.Platform.OSVersion), f,
+			common.Hex(d.Platform.Variant)}, ".")
+	}
+	return u + "~" + dt + "~" + p
 }
 
 func showDesc(d ocispec.Descriptor) string {
 	return fmt.Sprintf("D:%s:%s:%d:%s:%s:%s", common.Hex(d.MediaType), common.Hex(string(d.Digest)), d.Size,
-		showAnn(d.Annotations), common.Hex(d.ArtifactType), common.Hex(descExtra(d)))
+		showAnn(d.Annotations), common.Hex(d.ArtifactType), descExtra(d))
 }
 
 func showODesc(d *ocispec.Descriptor) string {
@@ -954,9 +969,19 @@ func packCase(sp *spec) {
 		if parseErr != nil {
 			obs = "OK unparsable:" + common.Hex(parseErr.Error()) + " EV " + ev
 		} else {
+			// the stored bytes themselves, with the clock's created value replaced by the placeholder
+			shown := stored
+			if raw, ok := got.Ann[key]; ok && !hadCreated {
+				if masked := maskNow(got.Ann, key, hadCreated, t0, t1); masked[key] == nowPlaceholder {
+					kq, _ := json.Marshal(key)
+					vq, _ := json.Marshal(raw)
+					pq, _ := json.Marshal(nowPlaceholder)
+					shown = bytes.Replace(stored, append(append(kq, ':'), vq...), append(append(kq, ':'), pq...), 1)
+				}
+			}
 			got.Ann = maskNow(got.Ann, key, hadCreated, t0, t1)
-			obs = fmt.Sprintf("OK %s:%s:%s %s EV %s", common.Hex(desc.MediaType), common.Hex(desc.ArtifactType),
-				showAnn(maskNow(desc.Annotations, key, hadCreated, t0, t1)), got.String(), ev)
+			obs = fmt.Sprintf("OK %s:%s:%s %s EV %s BYTES %s", common.Hex(desc.MediaType), common.Hex(desc.ArtifactType),
+				showAnn(maskNow(desc.Annotations, key, hadCreated, t0, t1)), got.String(), ev, common.Hex(string(shown)))
 		}
 	}
 	fa := "-"
